@@ -19,11 +19,11 @@ LEVEL = "exploration"
 RULE = ("every built-in data command x 1..5 inputs x rank 1-3 shapes x int/float dtypes x mask styles (nomask, all-false, random, "
         "single cell, all-but-one, all) x 3 payloads under the mask; CSV cases vary the number stored in missing cells; distinct by "
         "(command, n, rank, dtypes, mask classes, params)")
-REQUIRED_COUNTERS = ["mask_superset_checks", "mask_exact_checks", "payload_variation_checks", "masked_input_cells", "csv_payload_checks", "follow_up_mask_checks", "netcdf_fill_mask_checks", "large_rasters_checked"]
+REQUIRED_COUNTERS = ["mask_superset_checks", "mask_exact_checks", "payload_variation_checks", "masked_input_cells", "csv_payload_checks", "follow_up_mask_checks", "netcdf_fill_mask_checks", "large_rasters_checked", "csv_rereads_with_other_marker"]
 ASSUMPTIONS = ["what is stored under result masks and fill values are not judged", "NaN/inf and zero-length arrays are never generated",
                "cases where the reference is undefined (constant arrays, equal thresholds, zero weight sums) only get check (a) and (c)"]
 
-PAYLOAD_SETS = ((0, 1e30, -1e30), (-9999, 9999, 5e17), (0, -9999, 1e30), (0, "nan", 1e30), ("nan", -9999, "inf"))
+PAYLOAD_SETS = ((0, 1e30, -1e30), (-9999, 9999, 5e17), (0, -9999, 1e30), (0, "nan", 1e30), ("nan", -9999, "inf"), (0, 1.7976931348623157e308, -1.7976931348623157e308), (1e308, -9999, -1e308))
 
 
 def cases(ctx):
@@ -63,6 +63,7 @@ def cases(ctx):
         if not any(fill):
             fill[-1] = True
         yield {"kind": "ncread", "values": vals, "fill": fill, "missing_value": rng.choice([v for v, f in zip(vals, fill) if not f] + [4242.0]),
+               "marking": rng.choice(["_FillValue", "_FillValue", "missing_value", "valid_range", "valid_min_max"]),
                "chain": rng.choice([["Copy"], ["Sum"], ["Normalize"], ["CvtToFuzzy"], ["Mean"], ["Multiply"]])}
     for _ in range(ctx.n(160, 6000)):
         yield gen_csv_case(rng)
@@ -107,16 +108,30 @@ def run_ncread(ctx, case):
     d = ctx.scratch()
     path = os.path.join(d, "in.nc")
     n = len(case["values"])
+    marking = case.get("marking", "_FillValue")
     with Dataset(path, "w") as ds:
         ds.createDimension("x", n)
-        v = ds.createVariable("var", "f8", ("x",), fill_value=-1e30)
-        v[:] = numpy.ma.array(numpy.array(case["values"], dtype="f8"), mask=numpy.array(case["fill"]))
+        if marking == "_FillValue":
+            v = ds.createVariable("var", "f8", ("x",), fill_value=-1e30)
+            v[:] = numpy.ma.array(numpy.array(case["values"], dtype="f8"), mask=numpy.array(case["fill"]))
+        else:
+            # the file marks its no-data cells through the missing_value attribute or a valid range instead of _FillValue
+            v = ds.createVariable("var", "f8", ("x",), fill_value=False)
+            raw = numpy.array([(-77777.0 if f else x) for x, f in zip(case["values"], case["fill"])], dtype="f8")
+            if marking == "missing_value":
+                v.missing_value = -77777.0
+            elif marking == "valid_range":
+                v.valid_range = numpy.array([-70000.0, 1e9])
+            else:
+                v.valid_min = -70000.0
+                v.valid_max = 1e9
+            v[:] = raw
     mv = case["missing_value"]
     want = [f or (x == mv) for x, f in zip(case["values"], case["fill"])]
     prog = arr.new_program(arr.NC_LIBS, working_dir=d)
     out = arr.invoke(prog, "EEMSRead", "X", {"InFileName": path, "InFieldName": "var", "MissingValue": mv})
     ctx.count("netcdf_fill_mask_checks")
-    ctx.feature(("ncread", tuple(case["chain"]), sum(case["fill"]), mv == 4242.0))
+    ctx.feature(("ncread", tuple(case["chain"]), sum(case["fill"]), mv == 4242.0, marking))
     prev = "X"
     for j, cmd in enumerate(case["chain"]):
         if not out.ok:
@@ -132,7 +147,7 @@ def run_ncread(ctx, case):
     if isinstance(xin, numpy.ndarray):
         got = numpy.ma.getmaskarray(xin).tolist()
         if got != want:
-            ctx.fail("ncread:%s" % ("file-missing-cell-present" if any(w and not g for g, w in zip(got, want)) else "valid-cell-missing"),
+            ctx.fail("ncread:%s%s" % ("file-missing-cell-present" if any(w and not g for g, w in zip(got, want)) else "valid-cell-missing", "" if marking == "_FillValue" else ":marked-by-" + marking),
                      {"got": got, "want": want, "fill_cells": case["fill"], "missing_value": mv})
             return
     if out.ok and isinstance(out.value, numpy.ndarray):
@@ -328,5 +343,20 @@ def run_csv(ctx, case):
                 ctx.fail("csv:%s:missing-cell-present" % "+".join(case["chain"]), {"result": arr.describe(res), "mask_in": case["mask"]})
                 return
             digs.append(_vis_digest(res))
+            # the same file and column read again in this process with another missing marker (a valid value of the column),
+            # and with none: each read is missing exactly where the file holds *its* marker
+            valid = [v for v, m in zip(case["col"], case["mask"]) if not m]
+            for other in ([valid[0]] if valid else []) + [None]:
+                args2 = {"InFileName": path, "InFieldName": "X", "DataType": "Integer" if case["integer"] else "Float"}
+                if other is not None:
+                    args2["MissingVal"] = other
+                o2 = arr.invoke(arr.new_program(working_dir=d), "EEMSRead", "X", args2)
+                ctx.count("csv_rereads_with_other_marker")
+                if o2.ok:
+                    want2 = [False if other is None else ((marker if m else v) == other) for v, m in zip(case["col"], case["mask"])]
+                    got2 = numpy.ma.getmaskarray(o2.value).tolist()
+                    if got2 != want2:
+                        ctx.fail("csv:reread-with-another-missing-marker:mask-of-the-earlier-read", {"got": got2, "want": want2, "first_marker": marker, "second_marker": other})
+                        return
     if len(set(outcomes)) > 1 or len(set(digs)) > 1:
         ctx.fail("csv:%s:payload-leaks" % "+".join(case["chain"]), {"outcomes": outcomes})
